@@ -387,7 +387,13 @@ class Template:
                         _compile_module_file(
                             self, data, filename, path, self.module_writer
                         )
-                    module = compat.load_module(self.module_id, path)
+                    # the module file has been written again: its warnings
+                    # are translated through its own line map, not through
+                    # the one that may have been read from the old file
+                    with _translate_module_warnings(
+                        lambda: util.read_python_file(path), path, filename
+                    ):
+                        module = compat.load_module(self.module_id, path)
 
             ModuleInfo(module, path, self, filename, None, None, None)
         else:
